@@ -7,7 +7,7 @@ package standard
 
 //@ func (*Service).fetchAccount
 //@ requires s != nil
-//@ ensures [found] result2 == core.ResultSucceeded ==> result0 != nil && result1 != nil && result0 == walletOf(result1)
+//@ ensures [found] result2 == core.ResultSucceeded ==> result0 != nil && result1 != nil && nameOf(result0) == nameOf(walletOf(result1))
 //@ ensures [none] result2 != core.ResultSucceeded ==> result0 == nil && result1 == nil
 
 //@ func (*Service).checkAccess
@@ -18,7 +18,7 @@ package standard
 //@ func (*Service).preCheck
 //@ requires s != nil
 //@ modifies checkedset, deniedset
-//@ ensures [ok] result2 == core.ResultSucceeded ==> result0 != nil && result1 != nil && result0 == walletOf(result1) && credentials != nil && ckey(credentials.Client, nameOf(result0), nameOf(result1), action) in checkedset
+//@ ensures [ok] result2 == core.ResultSucceeded ==> result0 != nil && result1 != nil && nameOf(result0) == nameOf(walletOf(result1)) && credentials != nil && ckey(credentials.Client, nameOf(result0), nameOf(result1), action) in checkedset
 //@ ensures [none] result2 != core.ResultSucceeded ==> result0 == nil && result1 == nil
 
 //@ func (*Service).Lock
